@@ -28,6 +28,11 @@ pub enum Ev {
     SessionEnd,
     /// series dependent, only used by S1-shared: drop(t1)
     X3,
+    /// S2-relink only: the client closes data link k (closing detach, answered by the listener)
+    CloseLink(u8),
+    /// S2-relink only: the client attaches a NEW link (new name, new target) re-using the handle number that
+    /// link k had; the listener application accepts it as a further Receiver with a log of its own
+    AttachReuse(u8),
 }
 
 pub const ALPHABET: [Ev; 15] = [
@@ -48,6 +53,29 @@ pub const ALPHABET: [Ev; 15] = [
     Ev::X3,
 ];
 
+/// Alphabet of the S2-relink series (scripted client, ONE transaction slot, data links that are closed and whose
+/// handle numbers are re-used by new links).  `post(link k, ..)` means "on the handle number of link k", i.e. on
+/// whichever link currently holds it.
+pub const RELINK_ALPHABET: [Ev; 10] = [
+    Ev::Declare,
+    Ev::Post { link: 1, txn: 1 },
+    Ev::Post { link: 2, txn: 1 },
+    Ev::Post { link: 1, txn: 0 },
+    Ev::CloseLink(1),
+    Ev::AttachReuse(1),
+    Ev::CloseLink(2),
+    Ev::AttachReuse(2),
+    Ev::Commit(1),
+    Ev::Rollback(1),
+];
+
+pub fn alphabet(series: Series) -> &'static [Ev] {
+    match series {
+        Series::S2Relink | Series::S2RelinkSettled => &RELINK_ALPHABET,
+        _ => &ALPHABET,
+    }
+}
+
 #[derive(Debug, Clone, Copy, PartialEq, Eq, Hash)]
 pub enum Series {
     /// real client API, one shared `Controller` + borrowed `Transaction`s, against the real listener
@@ -60,8 +88,13 @@ pub enum Series {
     S2Settled,
     /// real client API against a scripted coordinator-capable server
     S3,
+    /// scripted client against the real listener; data links are closed and their handle numbers re-used by new
+    /// links while a transaction holds posts (own alphabet: `RELINK_ALPHABET`)
+    S2Relink,
+    /// like S2Relink, posts PRE-SETTLED
+    S2RelinkSettled,
 }
-pub const ALL_SERIES: [Series; 5] = [Series::S1Shared, Series::S1Owned, Series::S2, Series::S3, Series::S2Settled];
+pub const ALL_SERIES: [Series; 7] = [Series::S1Shared, Series::S1Owned, Series::S2, Series::S3, Series::S2Settled, Series::S2Relink, Series::S2RelinkSettled];
 
 impl Series {
     pub fn tag(self) -> &'static str {
@@ -71,6 +104,8 @@ impl Series {
             Series::S2 => "S2",
             Series::S2Settled => "S2-presettled",
             Series::S3 => "S3",
+            Series::S2Relink => "S2-relink",
+            Series::S2RelinkSettled => "S2-relink-presettled",
         }
     }
     pub fn from_tag(s: &str) -> Option<Series> {
@@ -88,13 +123,13 @@ pub fn ev_name(series: Series, ev: Ev) -> String {
         Ev::X1 => match series {
             Series::S1Shared => "controller.close()".into(),
             Series::S1Owned => "drop(t1)".into(),
-            Series::S2 | Series::S2Settled => "control-link detach(closed=true)".into(),
+            Series::S2 | Series::S2Settled | Series::S2Relink | Series::S2RelinkSettled => "control-link detach(closed=true)".into(),
             Series::S3 => "coordinator-rejects-next-discharge".into(),
         },
         Ev::X2 => match series {
             Series::S1Shared => "drop(controller)".into(),
             Series::S1Owned => "drop(t2)".into(),
-            Series::S2 | Series::S2Settled => "control-link detach(closed=false)".into(),
+            Series::S2 | Series::S2Settled | Series::S2Relink | Series::S2RelinkSettled => "control-link detach(closed=false)".into(),
             Series::S3 => "drop(t1)".into(),
         },
         Ev::SessionEnd => "session-end".into(),
@@ -102,6 +137,8 @@ pub fn ev_name(series: Series, ev: Ev) -> String {
             Series::S1Shared => "drop(t1)".into(),
             _ => "(unused)".into(),
         },
+        Ev::CloseLink(k) => format!("close-link(link{k})"),
+        Ev::AttachReuse(k) => format!("attach-new-link-reusing-handle-of(link{k})"),
     }
 }
 
@@ -153,6 +190,10 @@ pub enum Slot {
 
 /// Reference model written from the statement: map txn -> ordered posts; per link the list of
 /// deliveries visible to the application.
+///
+/// A "link" of the model is one ATTACHMENT with its own receiving application (its own `Receiver`, its own log):
+/// links 1 and 2 exist from the start; the S2-relink series closes them and attaches further links (3, 4, ...)
+/// that re-use their handle numbers.  A post belongs to the link it was sent on, for good.
 #[derive(Debug, Clone)]
 pub struct Model {
     pub slot: [Slot; 2],
@@ -162,10 +203,18 @@ pub struct Model {
     pub all_ids: Vec<Vec<u8>>,
     /// posts under the live transaction of the slot, in posting order: (link, label)
     pub pending: [Vec<(u8, String)>; 2],
-    /// per link: what the application must have seen so far, in order
-    pub delivered: [Vec<String>; 2],
+    /// per link (index = link number - 1): what the application must have seen so far, in order
+    pub delivered: Vec<Vec<String>>,
     /// labels that must never be delivered (rolled back, aborted, refused)
     pub never: Vec<String>,
+    /// per link: the peer has closed it (its receiving application is gone)
+    pub closed: Vec<bool>,
+    /// every post of the history: (label, link it was sent on)
+    pub posted_to: Vec<(String, u8)>,
+    /// posts of a successfully committed transaction whose link had been closed before the commit.  The statement's
+    /// "all of them are delivered" has no addressee left for these: delivery is NOT demanded (and cannot happen on
+    /// their own link); handing them to the application of another link is what the oracle forbids.
+    pub orphaned: Vec<String>,
 }
 
 impl Default for Model {
@@ -175,8 +224,11 @@ impl Default for Model {
             ids: [None, None],
             all_ids: vec![],
             pending: [vec![], vec![]],
-            delivered: [vec![], vec![]],
+            delivered: vec![vec![], vec![]],
             never: vec![],
+            closed: vec![false, false],
+            posted_to: vec![],
+            orphaned: vec![],
         }
     }
 }
@@ -199,6 +251,7 @@ impl Model {
         fresh
     }
     pub fn post(&mut self, link: u8, txn: u8, label: String) {
+        self.posted_to.push((label.clone(), link));
         if txn == 0 {
             self.delivered[link as usize - 1].push(label);
         } else {
@@ -211,9 +264,23 @@ impl Model {
     pub fn commit(&mut self, t: u8) {
         let i = t as usize - 1;
         for (l, lab) in std::mem::take(&mut self.pending[i]) {
-            self.delivered[l as usize - 1].push(lab);
+            if self.closed[l as usize - 1] {
+                self.orphaned.push(lab);
+            } else {
+                self.delivered[l as usize - 1].push(lab);
+            }
         }
         self.slot[i] = Slot::Committed;
+    }
+    /// the peer closed `link`: its receiving application is gone
+    pub fn close_link(&mut self, link: u8) {
+        self.closed[link as usize - 1] = true;
+    }
+    /// a further link with a receiving application of its own; returns its number
+    pub fn add_link(&mut self) -> u8 {
+        self.delivered.push(vec![]);
+        self.closed.push(false);
+        self.delivered.len() as u8
     }
     fn discard(&mut self, i: usize, to: Slot) {
         for (_, lab) in std::mem::take(&mut self.pending[i]) {
@@ -240,21 +307,41 @@ impl Model {
             self.pending.iter().map(|p| p.iter().map(|(l, _)| *l).collect::<Vec<u8>>()).collect::<Vec<_>>(),
             self.delivered.iter().map(|d| d.len()).collect::<Vec<_>>(),
             self.never.len(),
+            self.closed.clone(),
+            self.orphaned.len(),
         ))
     }
     pub fn describe(&self) -> String {
-        format!(
+        let mut s = format!(
             "model: t1={:?} t2={:?} withheld t1={:?} t2={:?} visible link1={:?} link2={:?} never={:?}",
             self.slot[0], self.slot[1], self.pending[0], self.pending[1], self.delivered[0], self.delivered[1], self.never
-        )
+        );
+        for (i, d) in self.delivered.iter().enumerate().skip(2) {
+            s.push_str(&format!(" visible link{}={:?}", i + 1, d));
+        }
+        if self.closed.iter().any(|c| *c) {
+            s.push_str(&format!(" closed links={:?}", self.closed.iter().enumerate().filter(|(_, c)| **c).map(|(i, _)| i + 1).collect::<Vec<_>>()));
+        }
+        if !self.orphaned.is_empty() {
+            s.push_str(&format!(" committed-but-link-gone={:?}", self.orphaned));
+        }
+        s
+    }
+    pub fn links(&self) -> u8 {
+        self.delivered.len() as u8
     }
 
     /// THE ORACLE (statement, first two sentences): at a quiescent state the receiving application's
     /// log, projected on each link, equals the model's list for that link.
     /// Permissive reading: "in posting order" is judged per link (AMQP orders deliveries within a link
     /// only; two application tasks draining two links have no defined relative order).
+    /// A committed post whose own link was closed before the commit is not demanded anywhere (see `orphaned`);
+    /// a post that shows up in the log of a link other than the one it was sent on is a failure whatever the
+    /// discharge answered: "withheld from the receiving application" / "delivered" speak of the application that
+    /// receives on the link the message was posted to (and C11: a frame reaches the link its handle designated
+    /// when it was sent and no other).
     pub fn judge_log(&self, log: &[(u8, String)]) -> Option<(String, String)> {
-        for link in 1..=2u8 {
+        for link in 1..=self.links() {
             let seen: Vec<&String> = log.iter().filter(|(l, _)| *l == link).map(|(_, s)| s).collect();
             let want: Vec<&String> = self.delivered[link as usize - 1].iter().collect();
             if seen == want {
@@ -265,6 +352,20 @@ impl Model {
             for s in &seen {
                 if s.starts_with("corrupt") {
                     return Some(("delivered-message-corrupt".into(), what));
+                }
+                if let Some((_, l)) = self.posted_to.iter().find(|(lab, _)| lab == *s) {
+                    if *l != link {
+                        let state = if self.pending.iter().any(|p| p.iter().any(|(_, lab)| lab == *s)) {
+                            "still withheld under a live transaction"
+                        } else if self.orphaned.contains(s) {
+                            "committed after its own link had been closed"
+                        } else if self.never.contains(s) {
+                            "discarded (rolled back, aborted or refused)"
+                        } else {
+                            "visible on its own link"
+                        };
+                        return Some(("post-delivered-to-another-link".into(), format!("message {s:?} was posted on link {l} ({state}) and was handed to the application of link {link}; {what}")));
+                    }
                 }
                 if self.pending.iter().any(|p| p.iter().any(|(_, lab)| lab == *s)) {
                     return Some(("withheld-post-delivered-before-discharge".into(), what));
@@ -285,7 +386,7 @@ impl Model {
             }
             return Some(("delivery-order-differs-from-posting-order".into(), what));
         }
-        if let Some((l, s)) = log.iter().find(|(l, _)| *l != 1 && *l != 2) {
+        if let Some((l, s)) = log.iter().find(|(l, _)| *l < 1 || *l > self.links()) {
             return Some(("delivery-on-unknown-link".into(), format!("message {s:?} delivered on link {l}")));
         }
         None
@@ -305,14 +406,9 @@ pub struct Shared {
 }
 pub type Sh = Arc<Mutex<Shared>>;
 
+/// "link-<n>" -> n (0 if the name has no such number)
 fn link_no(name: &str) -> u8 {
-    if name.ends_with('1') {
-        1
-    } else if name.ends_with('2') {
-        2
-    } else {
-        0
-    }
+    name.rsplit('-').next().and_then(|d| d.parse::<u8>().ok()).unwrap_or(0)
 }
 
 async fn receiver_main(mut r: Receiver, sh: Sh) {
